@@ -17,6 +17,11 @@ func (ft *FuncTr) instr(b *ssa.BasicBlock, st *State, at *Term, in ssa.Instructi
 		return false, nil
 	case *ssa.Alloc:
 		ty := x.Type().(*types.Pointer).Elem()
+		if x.Heap && ft.snapshotCell(x) {
+			st.locals[x] = ft.w.zero(ft.d, ty)
+			ft.vals[x] = Val{Ref: &LocalRef{alloc: x}}
+			return false, nil
+		}
 		if x.Heap {
 			p := ft.allocObj(st)
 			pc := ft.d.Fresh("obj_"+x.Comment, SPtr)
@@ -807,7 +812,15 @@ func (ft *FuncTr) ret(st *State, at *Term, x *ssa.Return) error {
 		}
 		ft.assert(at, t, fmt.Sprintf("ensures[%s]", clauseID(en, i)), "", en.Text, x.Pos())
 	}
-	// pure functions: nothing else to check; frame is checked syntactically by the driver
+	if ft.c.Denotes != nil {
+		dv := env.tr(ft.c.Denotes)
+		var argT []*Term
+		for _, p := range ft.fn.Params {
+			argT = append(argT, ft.vals[p].T)
+		}
+		app := ft.h.fnApp(st, env.val(dv), ft.fn.Signature, argT)
+		ft.assert(at, Eq(res[0].T, app), "denotes", "", "result == apply("+ft.c.DenotesText+", arguments)", x.Pos())
+	}
 	ft.results = nil
 	return nil
 }
@@ -826,4 +839,73 @@ func (ft *FuncTr) goStmt(st *State, at *Term, x *ssa.Go) error {
 
 func (ft *FuncTr) recv(st *State, at *Term, x *ssa.UnOp) error {
 	return unsupported("channel receive")
+}
+
+// snapshotCell: a variable captured by closures but written exactly once (before any capture) and
+// never written by the closures can be treated as a local whose value is snapshotted at capture.
+func (ft *FuncTr) snapshotCell(a *ssa.Alloc) bool {
+	if a.Referrers() == nil {
+		return false
+	}
+	var stores []*ssa.Store
+	var closures []*ssa.MakeClosure
+	for _, r := range *a.Referrers() {
+		switch x := r.(type) {
+		case *ssa.Store:
+			if x.Addr != a {
+				return false
+			}
+			stores = append(stores, x)
+		case *ssa.UnOp:
+			if x.Op != token.MUL {
+				return false
+			}
+		case *ssa.MakeClosure:
+			closures = append(closures, x)
+		case *ssa.DebugRef:
+		default:
+			return false
+		}
+	}
+	if len(closures) == 0 || len(stores) != 1 {
+		return false
+	}
+	sb := stores[0].Block()
+	for _, mc := range closures {
+		if !sb.Dominates(mc.Block()) {
+			return false
+		}
+		if sb == mc.Block() {
+			// store must come first
+			for _, in := range sb.Instrs {
+				if in == ssa.Instruction(mc) {
+					return false
+				}
+				if in == ssa.Instruction(stores[0]) {
+					break
+				}
+			}
+		}
+		fn := mc.Fn.(*ssa.Function)
+		for i, b := range mc.Bindings {
+			if b != ssa.Value(a) {
+				continue
+			}
+			fv := fn.FreeVars[i]
+			if fv.Referrers() != nil {
+				for _, r := range *fv.Referrers() {
+					switch y := r.(type) {
+					case *ssa.UnOp:
+						if y.Op != token.MUL {
+							return false
+						}
+					case *ssa.DebugRef:
+					default:
+						return false
+					}
+				}
+			}
+		}
+	}
+	return true
 }
